@@ -95,7 +95,38 @@ def prog_eh(rng, d):
     return [str(o), str(o2)], ["--no-gc-sections", "--eh-frame-hdr"]
 
 
-PROGS = [("gc-graph", prog_gc), ("string-merge", prog_str), ("shared-versions", prog_shared), ("eh-frame", prog_eh)]
+def prog_dynexe(rng, d):
+    """A dynamically linked executable whose objects define symbols that shared libraries (built by
+    GNU ld) reference, so they are exported through ExportDynamic requests; several pairs of names
+    share their 32-bit GNU hash ('…aQ' / '…b0'), each pair split over two objects and requested by
+    two different libraries."""
+    pairs = [(f"cbk{i}_aQ", f"cbk{i}_b0") for i in range(6)]
+    libs = []
+    for li in range(2):
+        t = [".text", f".globl use{li}", f"use{li}:"]
+        for a, b in pairs:
+            t.append(f"    call {(a, b)[li]}@PLT")
+            if li == 0:
+                t.append(f"    call {b}@PLT")       # library 0 asks for both, library 1 only for one
+        t.append("    ret")
+        o = asm.write_asm(d, f"lib{li}", "\n".join(t) + "\n")
+        so = d / f"libuse{li}.so"
+        asm.gnu_ld(["-shared", "-o", so, o], check=True)
+        libs.append(str(so))
+    objs = []
+    body = ['.globl _start', '.section .text._start,"ax",@progbits', "_start:", "    call use0@PLT", "    call use1@PLT", asm.EXIT_X86]
+    objs.append(str(asm.write_asm(d, "start", "\n".join(body) + "\n")))
+    for oi in range(3):
+        t = []
+        for k, (a, b) in enumerate(pairs):
+            for nm, owner in ((a, k % 3), (b, (k + 1) % 3)):
+                if owner == oi:
+                    t += [f".globl {nm}", f".type {nm},@function", f'.section .text.{nm},"ax",@progbits', f"{nm}: ret"]
+        objs.append(str(asm.write_asm(d, f"def{oi}", "\n".join(t) + "\n")))
+    return objs + libs, ["-dynamic-linker", "/lib64/ld-linux-x86-64.so.2", "--hash-style=gnu"]
+
+
+PROGS = [("dynamic-exe-exports", prog_dynexe), ("gc-graph", prog_gc), ("string-merge", prog_str), ("shared-versions", prog_shared), ("eh-frame", prog_eh)]
 
 
 def prior_state(rng, out, kind, ref_bytes):
